@@ -408,6 +408,15 @@ def gen_cases(run):
                 cases.append(dict(kind='pipe', phase='run',
                                   filters=[['dataedit', 'class' if ln % 2 else 'instance', list(chain)]],
                                   data=d))
+    # DataEdit.add_output: several outputs in one chain, the same key used again with another source
+    # block after the first value was moved away or overwritten
+    for v1, v2 in itertools.permutations([["i", 1], ["s", "x"], ["b", False]], 2):
+        for mid in (['rename', 'a', 'b'], ['copy', 'a', 'c'], ['delete', ['z']], ['add', [['a', ["i", 9]]]]):
+            for style in ('class', 'instance', 'inplace'):
+                cases.append(dict(kind='pipe', phase='run', data={'z': ["i", 0]},
+                                  filters=[['dataedit', style, [['add_output', 'a', v1], mid,
+                                                                ['add_output', 'a', v2], ['add_output', 'b', v1]
+                                                                if mid[0] != 'rename' else ['add_output', 'c', v1]]]]))
     # Delta: sequences with the same filter instance
     for _ in range(300 if run.tier == 'quick' else 9000):
         floaty = rng.random() < 0.4
